@@ -213,6 +213,16 @@ def check(run):
                detail="" if ok else "the depth budget influences something other than where the search stops",
                mech="def-use chain of the parameter")
 
+    # ---- R4 one tree level per unit of depth: every recursive call is on the hit just attached to the current node or on a
+    # direct child of the node scan_node was given (a walk over the whole subtree would re-scan deeper nodes with depth - 1
+    # instead of the budget their level is due)
+    from .. import frames
+
+    def sel(v):
+        return (v.vc == "V8" and v.key == "decoded-arm/recurse-on-hit") or (v.vc == "V8c" and v.key in ("children-arm", "children-arm/descend"))
+    frames.emit(run, sel, rule_of=lambda v: "R4-one-level-per-call")
+    run.floor("R4-one-level-per-call", 2)
+
 
 def depth_dependence(pc, DEPTH, skip_c):
     """None if the truth of pc does not depend on the DEPTH value (>= 1) under any assignment of the other atoms;
